@@ -1388,6 +1388,18 @@ CS104_Connection_sendASDU(CS104_Connection self, CS101_ASDU asdu)
 bool
 CS104_Connection_isTransmitBufferFull(CS104_Connection self)
 {
-    return isSentBufferFull(self);
+    bool isFull;
+
+#if (CONFIG_USE_SEMAPHORES == 1)
+    Semaphore_wait(self->conStateLock);
+#endif /* (CONFIG_USE_SEMAPHORES == 1) */
+
+    isFull = isSentBufferFull(self);
+
+#if (CONFIG_USE_SEMAPHORES == 1)
+    Semaphore_post(self->conStateLock);
+#endif /* (CONFIG_USE_SEMAPHORES == 1) */
+
+    return isFull;
 }
 
